@@ -54,7 +54,7 @@ func genC05(repo string) (string, error) {
 	if err != nil {
 		return "", err
 	}
-	lopt := goast.SkelOpt{Calls: set("GetCurrentTSO", "CompareTimestamp", "resetUserTimestamp", "getTS", "Check", "GetSuffixBits"), Conds: true}
+	lopt := goast.SkelOpt{Calls: set("GetCurrentTSO", "CompareTimestamp", "resetUserTimestamp", "getTS", "Check", "GetSuffixBits"), Conds: true, Returns: true}
 	for _, fn := range []string{"WriteTSO", "GenerateTSO"} {
 		if err := o.skeleton(la, "LocalTSOAllocator", fn, "skel_lta_"+fn, lopt); err != nil {
 			return "", err
